@@ -10,7 +10,7 @@ import (
 )
 
 // maxLivePaths: above this many simultaneously live paths they are joined into one state.
-const maxLivePaths = 6
+const maxLivePaths = 24
 
 const (
 	okNormal = iota
@@ -1470,6 +1470,11 @@ func (fv *FuncVerifier) execRange(st *State, env *Env, x *ast.RangeStmt, label s
 				bindIter(st, kobj, k)
 				bindIter(st, vobj, w.MapGetRaw(m, k))
 				st.Assume(w.MapHas(m, k))
+				if mt, ok := xt.Underlying().(*types.Map); ok {
+					// keys and values carry their static types
+					st.Assume(fv.typeInv(k, mt.Key()))
+					st.Assume(fv.typeInv(w.MapGetRaw(m, k), mt.Elem()))
+				}
 				return incr(fv.execBlock(st, env, x.Body.List))
 			},
 			func(st *State) []Term { return []Term{Le(IntLit(0), getIt(st)), Le(getIt(st), w.SeqLen(ks))} })
